@@ -276,7 +276,8 @@ GhpeGenOk(e) ==
         /\ N = BMul(P, Q) /\ P # Q /\ BIsPrime(P) /\ BIsPrime(Q)
         /\ BMod(P, <<4>>) = <<3>> /\ BMod(Q, <<4>>) = <<3>>
         /\ BBits(P) = e.bits \div 2 /\ BBits(Q) = e.bits \div 2
-GhpeOk(e) ==
+(* everything but the library's decryptions: admitted plaintexts, ciphertexts that decrypt by definition, combination *)
+GhpeEncPart(e) ==
     LET N == BnVal(e.N)  L == BnVal(e.L)  s == e.s
         Ns == BPow(N, s)  Ns1 == BMul(Ns, N)
         m1 == BnVal(e.m1)  m2 == BnVal(e.m2)
@@ -285,10 +286,12 @@ GhpeOk(e) ==
         /\ BLt(m1, Ns) /\ BLt(m2, Ns)
         /\ BLt(BnVal(e.c1), Ns1) /\ BLt(BnVal(e.c2), Ns1)
         /\ GhpeDecIs(BnVal(e.c1), m1, L, N, s) /\ GhpeDecIs(BnVal(e.c2), m2, L, N, s)
-        /\ BnVal(e.d1) = m1 /\ BnVal(e.d2) = m2
         /\ BnVal(e.c3) = BMulMod(BnVal(e.c1), BnVal(e.c2), Ns1)
         /\ GhpeDecIs(BnVal(e.c3), BAddMod(m1, m2, Ns), L, N, s)
-        /\ BnVal(e.d3) = BAddMod(m1, m2, Ns)
+GhpeDecPart(e) ==
+    LET Ns == BPow(BnVal(e.N), e.s)  m1 == BnVal(e.m1)  m2 == BnVal(e.m2) IN
+    BnVal(e.d1) = m1 /\ BnVal(e.d2) = m2 /\ BnVal(e.d3) = BAddMod(m1, m2, Ns)
+GhpeOk(e) == GhpeEncPart(e) /\ GhpeDecPart(e)
 
 (* ================================================================== Benaloh *)
 BdpeT(e) == BDiv(BMul(Dec1(BnVal(e.P)), Dec1(BnVal(e.Q))), BFromNat(e.t))
@@ -508,6 +511,9 @@ CoreKnownKey(e) ==
                     /\ \E d \in RabinValidSet(e, c) : DecVerdict(e, d, TRUE)
             THEN "C06-rabin-ciphertext-length-not-checked"
             ELSE ""
+      [] e.op = "ghpe" ->
+            \* cp_ghpe_dec divides by k! after reducing modulo n^j: wrong plaintexts from s = 3 on
+            IF e.s >= 3 /\ GhpeEncPart(e) /\ ~GhpeDecPart(e) THEN "C06-ghpe-dec-wrong-for-s-above-2" ELSE ""
       [] e.op = "ecies_dec" ->
             \* fewer bytes than one tag: the length of the authenticated part underflows
             IF Len(e.c) < e.mdl /\ e.honest = 0 /\ (e.crash # 0 \/ ~Refused(e))
